@@ -67,6 +67,12 @@ def make_problem(spec):
         lb, ub, plb, pub = [0.01] * D, [100.0] * D, [0.1] * D, [10.0] * D
         if D > 1:  # mixed log / linear
             lb[-1], ub[-1], plb[-1], pub[-1] = -5.0, 5.0, -2.0, 2.0
+    elif box == "logbig":      # log-transformed with every bound > 1 (log(bound) is a different positive number), optimum below the box for 'outside'
+        lb, ub, plb, pub = [2.0] * D, [5000.0] * D, [5.0] * D, [500.0] * D
+    elif box == "dec":         # decimal (not binary-exact) bounds that fall ON the internal mesh: round-trip rounding shows at the bound
+        lb, ub, plb, pub = [0.1] * D, [0.7] * D, [0.3] * D, [0.5] * D
+    elif box == "declog":
+        lb, ub, plb, pub = [0.01] * D, [10.0] * D, [0.1] * D, [1.0] * D
     elif box == "unb":
         lb, ub, plb, pub = [-np.inf] * D, [np.inf] * D, [-2.0] * D, [2.0] * D
     elif box == "mixed":
@@ -80,6 +86,12 @@ def make_problem(spec):
         center = np.where(np.asarray(lb) > 0, 1.7, 0.0) + 0.0 * shift
         if spec.get("target") == "outside":
             center = np.where(np.asarray(lb) > 0, 1000.0, 9.0)
+    elif box == "logbig":
+        center = np.full(D, 40.0) if tname != "outside" else np.full(D, 0.5)
+    elif box == "dec":
+        center = np.full(D, 0.42) if tname != "outside" else np.asarray([9.0] + [-9.0] * (D - 1))
+    elif box == "declog":
+        center = np.full(D, 0.42) if tname != "outside" else np.asarray([90.0] + [1e-4] * (D - 1))
     else:
         center = shift if tname != "outside" else np.asarray([9.0] * D)
 
